@@ -348,12 +348,12 @@ func run(r *evid.Run) {
 
 	osFaults(r)
 	atomicKill(r)
-	if schedFaults != nil {
-		schedFaults(r)
+	for _, section := range extraSections {
+		section(r)
 	}
 }
 
-var schedFaults func(r *evid.Run)
+var extraSections []func(r *evid.Run)
 
 func dedupOps(ops []wrap.Op) []wrap.Op {
 	seen := map[wrap.Op]bool{}
